@@ -38,7 +38,9 @@ pub struct Tree {
     pub exclude: usize,
 }
 
-const EXCLUDES: &[&[&str]] = &[&[], &["pkg/**"], &["**/conftest.py"], &["*_test.py"], &["[unclosed", "pkg/sub/**"]];
+// the last set matches directories only (their relative paths), none of the files below them:
+// exclusion is per path, so nothing is dropped
+const EXCLUDES: &[&[&str]] = &[&[], &["pkg/**"], &["**/conftest.py"], &["*_test.py"], &["[unclosed", "pkg/sub/**"], &["pkg", "pkg/su?", "p?g"]];
 
 fn ident(s: &str) -> String {
     s.chars().map(|c| if c.is_ascii_alphanumeric() { c } else { '_' }).collect()
@@ -320,6 +322,6 @@ pub fn run(rep: &'static Report) {
     rep.set("distinct_nontrivial", nontrivial.load(Ordering::Relaxed));
     rep.set("traces_validated_against_impl", scans.load(Ordering::Relaxed));
     rep.set("exhaustive", true);
-    rep.set("rule", "real directory trees on tmpfs: base tree {conftest.py importing support.py and support2.py, test_a.py, pkg/b_test.py, pkg/sub/conftest.py importing the root-level support3.py, notes.py} with at most 2 (quick) / 3 (thorough) deviations among: one of 8 near-pattern file names at 2 places, one of 27 ignored directory names (every SKIP_DIRECTORIES entry and *.egg-info) at depth 1..3 holding a test file and a conftest, one of 5 fault kinds (non-UTF-8 test file, non-UTF-8 imported module, dangling symlink, directory named like a test file, test file with a syntax error), one of 4 exclude sets given through pyproject.toml (incl. an invalid glob mixed with a valid one); every tree is created under each root location (plain and below ancestors named like ignored directories or containing 'site-packages'; the root handed over in canonical spelling, through a symbolic link living elsewhere, and with a `..` component) and scanned with the real scan_workspace_with_excludes; oracle: the indexed file set equals the reference discovery model, and every root-relative answer and classification is identical across root locations; conformance: for every exclude set the real server is initialised on two trees and the files contributing workspace symbols must equal the model's set");
+    rep.set("rule", "real directory trees on tmpfs: base tree {conftest.py importing support.py and support2.py, test_a.py, pkg/b_test.py, pkg/sub/conftest.py importing the root-level support3.py, notes.py} with at most 2 (quick) / 3 (thorough) deviations among: one of 8 near-pattern file names at 2 places, one of 27 ignored directory names (every SKIP_DIRECTORIES entry and *.egg-info) at depth 1..3 holding a test file and a conftest, one of 5 fault kinds (non-UTF-8 test file, non-UTF-8 imported module, dangling symlink, directory named like a test file, test file with a syntax error), one of 5 exclude sets given through pyproject.toml (incl. an invalid glob mixed with a valid one, and patterns that match directories but none of the files below them); every tree is created under each root location (plain and below ancestors named like ignored directories or containing 'site-packages'; the root handed over in canonical spelling, through a symbolic link living elsewhere, and with a `..` component) and scanned with the real scan_workspace_with_excludes; oracle: the indexed file set equals the reference discovery model, and every root-relative answer and classification is identical across root locations; conformance: for every exclude set the real server is initialised on two trees and the files contributing workspace symbols must equal the model's set");
     rep.assume("permission-denied cannot be produced as root and is not covered; glob semantics are those of the glob crate (the model uses the same matcher, what is judged is how the scanner applies the patterns)");
 }
